@@ -561,6 +561,12 @@ class EndpointResponseHandlerGenerator:
                 writer.write_line("return  # Explicit return for async generator")
             return
 
+        # Text and binary bodies are not JSON: return them as sent
+        if strategy.return_type in ("str", "bytes") and strategy.response_ir is not None and strategy.response_ir.content:
+            if not any("json" in content_type.lower() for content_type in strategy.response_ir.content):
+                writer.write_line("return response.text" if strategy.return_type == "str" else "return response.content")
+                return
+
         # Use response.json() directly - no automatic unwrapping
         data_expr = "response.json()"
 
